@@ -31,6 +31,7 @@ type Client struct {
 	Model *model.Client
 	DTs   []*DT
 	req   uint32
+	SDK   bool // connected through the grpc front; synced with Cli.Sync()
 }
 
 // Transition is a state change reported to the state-change handler.
